@@ -324,3 +324,96 @@ def check_no_pickled_hash_cache(c, rule, modules, why):
                 "hand-written __hash__ caches on the instance but the class has no "
                 "__getstate__ dropping the cache: " + why)
     return n
+
+
+def check_shape_component_tests(c, rule, modules):
+    """an array-valued shape component is any Array (a size parameter, or an
+    expression of size parameters such as n + 1): wherever the traversal and
+    analysis code picks the array-valued components out of a shape, the type test is
+    against Array itself.  A narrower class (InputArgumentBase, SizeParam) still finds
+    every bare size parameter, which is all the tests use."""
+    import ast
+    m = c.model
+    n = 0
+    for mi, fd in m.all_functions(modules=[x for x in modules if x in m.modules]):
+        if m.enclosing_function(fd) is not None:
+            continue
+        params = {a.arg for a in fd.args.posonlyargs + fd.args.args + fd.args.kwonlyargs}
+        sites = []     # (loop variable, nodes in which it is tested)
+        for x in ast.walk(fd):
+            if isinstance(x, ast.For) and isinstance(x.target, ast.Name):
+                sites.append((x.target.id, x.iter, x.body))
+            elif isinstance(x, (ast.ListComp, ast.SetComp, ast.GeneratorExp, ast.DictComp)):
+                body = [x.key, x.value] if isinstance(x, ast.DictComp) else [x.elt]
+                for g in x.generators:
+                    if isinstance(g.target, ast.Name):
+                        sites.append((g.target.id, g.iter, body + list(g.ifs)))
+        for var, it, body in sites:
+            its = ast.unparse(it)
+            if not (its.endswith(".shape") or (its == "shape" and "shape" in params)):
+                continue
+            for b in body:
+                for t in ast.walk(b):
+                    if isinstance(t, ast.Call) and ast.unparse(t.func) == "isinstance" \
+                            and len(t.args) == 2 and ast.unparse(t.args[0]) == var:
+                        ty = ast.unparse(t.args[1])
+                        if ty in ("INT_CLASSES", "int", "Integer", "(int, np.integer)"):
+                            continue
+                        n += 1
+                        qn = m.qualname(fd).replace("pytato.", "", 1)
+                        c.check(ty == "Array", rule, qn,
+                                f"shape-components-selected-by-Array:{its}", m.loc(mi, t),
+                                f"the array-valued components of `{its}` are selected with "
+                                f"isinstance(.., {ty}): a component that is an Array but no "
+                                f"{ty} (an expression of size parameters, n + 1) is skipped: "
+                                "it is no predecessor / is never visited, although its users "
+                                "and the shape itself say it is there")
+    return n
+
+
+def check_no_hash_keyed_tables(c, rule, modules):
+    """a table that stands for 'the objects seen so far' is keyed by the objects (or
+    by id()), never by hash(obj): distinct objects may share a hash (hash(-1) ==
+    hash(-2) in CPython, so x[-1] and x[-2] do), and a lookup by hash hands back
+    whichever came first.  Flags hash(..) used as a subscript, as the left side of
+    `in`, or as the argument of .get/.add/.setdefault/.pop/.discard, directly or
+    through a local."""
+    import ast
+    m = c.model
+    n_funcs = 0
+    for mi, fd in m.all_functions(modules=[x for x in modules if x in m.modules]):
+        if m.enclosing_function(fd) is not None or fd.name in (
+                "__hash__", "update_persistent_hash", "__eq__"):
+            continue
+        n_funcs += 1
+        hashed = set()      # locals bound to hash(..)
+        for a in ast.walk(fd):
+            if isinstance(a, (ast.Assign, ast.AnnAssign)) and a.value is not None \
+                    and isinstance(a.value, ast.Call) and isinstance(a.value.func, ast.Name) \
+                    and a.value.func.id == "hash":
+                for t in (a.targets if isinstance(a, ast.Assign) else [a.target]):
+                    if isinstance(t, ast.Name):
+                        hashed.add(t.id)
+
+        def is_hash(e):
+            return (isinstance(e, ast.Call) and isinstance(e.func, ast.Name)
+                    and e.func.id == "hash") or (isinstance(e, ast.Name) and e.id in hashed)
+        for x in ast.walk(fd):
+            site = None
+            if isinstance(x, ast.Subscript) and is_hash(x.slice):
+                site = x
+            elif isinstance(x, ast.Compare) and len(x.ops) == 1 \
+                    and isinstance(x.ops[0], (ast.In, ast.NotIn)) and is_hash(x.left):
+                site = x
+            elif isinstance(x, ast.Call) and isinstance(x.func, ast.Attribute) \
+                    and x.func.attr in ("get", "add", "setdefault", "pop", "discard") \
+                    and x.args and is_hash(x.args[0]):
+                site = x
+            if site is not None:
+                qn = m.qualname(fd).replace("pytato.", "", 1)
+                c.violation(rule, qn, f"table-keyed-by-hash:{m.frag(site, 50)}",
+                            m.loc(mi, site),
+                            f"`{m.frag(site, 70)}` looks an object up by its hash: two "
+                            "distinct objects with the same hash (x[-1] and x[-2]: "
+                            "hash(-1) == hash(-2)) are taken for one another")
+    return n_funcs
